@@ -51,8 +51,15 @@ Definition chk_copy (W : world N) (pre : list (op N)) (ns : dict N) (k : str)
   let st := state_of (exec_list 30 pre (st_push (build_base W) [])) in
   option_eqb value_eqb (st_lookup (st_push (ctx_copy st ns) []) k) inner
   && option_eqb value_eqb (st_lookup st k) outer.
+Definition chk_copy2 (W : world N) (pre : list (op N)) (ns1 : dict N) (k : str)
+    (inner outer : option (value N)) : bool :=
+  let st := state_of (exec_list 30 pre (st_push (build_base W) [])) in
+  let st1 := st_push (st_push (ctx_copy st ns1) []) [(k_w_, Data 90)] in
+  option_eqb value_eqb (st_lookup (st_push (ctx_copy st1 []) []) k) inner
+  && option_eqb value_eqb (st_lookup st k) outer.
 Definition raw_state (s : store N) (c : list mref) : state N :=
-  {| store_of := s; scope := c; locals_a := 0%nat; counters_a := 0%nat; globals_r := RBuiltin |}.
+  {| store_of := s; scope := c; locals_a := 0%nat; counters_a := 0%nat; globals_r := RBuiltin;
+     root_r := RBuiltin |}.
 """
 
 
@@ -270,7 +277,7 @@ def api_world(S: str, name: str) -> dict[str, list]:
             "ra": [(name, ("D", 3))] if "R" in S else []}
 
 
-SHAPES = ["plain", "for", "capture", "assign_in_block", "include", "nested", "lambda", "liquid", "render"]
+SHAPES = ["plain", "for", "capture", "assign_in_block", "include", "nested", "lambda", "liquid", "render", "render2"]
 
 
 def api_program(S: str, name: str, shape: str) -> tuple[list[tuple], list[tuple]]:
@@ -318,14 +325,19 @@ def run_api(S: str, shape: str, path: int, none_for_empty: bool) -> dict[str, An
         return d if d or not none_for_empty else None
 
     P = Prog()
-    if shape == "render":
+    if shape in ("render", "render2"):
         pre, _ = api_program(S, name, "plain")
         ns = [(name, ("D", 1))] if "B" in S else []
         args = "".join(f", {k}: '{pyval(v)}'" for k, v in ns)
-        src = P.src(pre) + "{% render 'r'" + args + " %}" + "{{ " + name + " }}" + SEP
         P.partials["r"] = "{{ " + name + " }}" + SEP
-        # the partial's own matter must be invisible
-        part_matter = {"r": {name: "v8"}}
+        if shape == "render":
+            src = P.src(pre) + "{% render 'r'" + args + " %}" + "{{ " + name + " }}" + SEP
+        else:
+            # a render inside a rendered partial (inside a block of that partial)
+            src = P.src(pre) + "{% render 'r1'" + args + " %}" + "{{ " + name + " }}" + SEP
+            P.partials["r1"] = "{% with w_: 'v90' %}{% render 'r' %}{% endwith %}"
+        # the partials' own matter must be invisible
+        part_matter = {"r": {name: "v8"}, "r1": {name: "v8"}}
         nodes = None
     else:
         pre, body = api_program(S, name, shape)
@@ -362,7 +374,7 @@ def run_api(S: str, shape: str, path: int, none_for_empty: bool) -> dict[str, An
     if t.global_data is env.globals or (tg and t.global_data is tg):
         problems.append("template.global_data aliases a caller mapping (make_globals did not allocate)")
     return {"name": name, "world": w, "pre": pre, "nodes": nodes, "prog": P, "src": src, "segs": segs,
-            "partials": dict(P.partials), "problems": problems, "ns": ns if shape == "render" else None}
+            "partials": dict(P.partials), "problems": problems, "ns": ns if shape in ("render", "render2") else None}
 
 
 def spec_value(S: str, visible: str) -> tuple | None:
@@ -396,7 +408,7 @@ def part_a(chk: C.Check, thorough: bool) -> list[dict[str, Any]]:
                           "source": r["src"], "partials": r["partials"], "output": r["segs"]}
                 for p in r["problems"]:
                     chk.finding("api:" + p[:40], p, replay)
-                if shape == "render":
+                if shape in ("render", "render2"):
                     segs = r["segs"]
                     ok_shape = len(segs) == (3 if "C" not in S else 4) and segs[-1] == ""
                     if not ok_shape:
@@ -404,14 +416,14 @@ def part_a(chk: C.Check, thorough: bool) -> list[dict[str, Any]]:
                         continue
                     inner, outer = token_of_text(segs[-3]), token_of_text(segs[-2])
                     # oracle: inside the partial the parent's locals and counters are invisible
-                    want_in = spec_value(S, "BRMTEU")
+                    want_in = spec_value(S, "BRMTEU" if shape == "render" else "RMTEU")
                     want_out = spec_value(S, "LRMTEUC")
                     for got, want, where in ((inner, want_in, "inside {% render %}"), (outer, want_out, "after {% render %}")):
                         stats["lookups"] += 1
                         g = ("U",) if got in (("N",), ("T",)) else got
                         if g != want:
                             chk.finding("precedence:" + where, f"layers {S}: {name} resolved to {got}, the documented order gives {want} {where}", replay)
-                    case = (f"chk_copy {cworld(r['world'])} {cops(r['prog'].ops(r['pre']))} {cdict(r['ns'])} "
+                    case = (f"{'chk_copy' if shape == 'render' else 'chk_copy2'} {cworld(r['world'])} {cops(r['prog'].ops(r['pre']))} {cdict(r['ns'])} "
                             f"{ck(name)} {coval(inner)} {coval(outer)}")
                     items.append({"case": case, "model": f"render 30 {cworld(r['world'])} {cops(r['prog'].ops(r['pre']))}",
                                   "replay": replay})
@@ -1041,14 +1053,29 @@ def main(chk: C.Check, build: C.Build) -> None:
     proofs_ok = C.proof_stage(chk, build, NEEDED)
     thorough = chk.tier == "thorough"
 
+    import time
+    walls = {}
+    t0 = time.time()
     items_a = part_a(chk, thorough)
+    walls["A"] = round(time.time() - t0, 1)
+    t0 = time.time()
     items_b = part_b(chk, thorough)
+    walls["B"] = round(time.time() - t0, 1)
+    t0 = time.time()
     items_c = part_c(chk, thorough)
+    walls["C"] = round(time.time() - t0, 1)
+    t0 = time.time()
     part_d(chk, thorough)
+    walls["D"] = round(time.time() - t0, 1)
+    chk.coverage["part_wall_s"] = walls
 
-    C.correspond(chk, "c10a", IMPORTS, DEFS, items_a, what="ChainMap.render/ctx_copy vs public API", shard=200)
-    C.correspond(chk, "c10b", IMPORTS, DEFS, items_b, what="ChainMap.exec_list vs RenderContext", shard=100)
-    C.correspond(chk, "c10c", IMPORTS, DEFS, items_c, what="ChainMap.cm_* vs ReadOnlyChainMap", shard=100)
+    for it, part in ((items_a, "A public API"), (items_b, "B RenderContext"), (items_c, "C ReadOnlyChainMap")):
+        for x in it:
+            x["replay"]["part"] = part
+    items = items_a + items_b + items_c
+    C.correspond(chk, "c10", IMPORTS, DEFS, items,
+                 what="ChainMap.v (render, ctx_copy, exec_list, cm_*) vs public API / RenderContext / ReadOnlyChainMap",
+                 shard=max(100, -(-len(items) // C.JOBS)))
     C.proofs_verdict(chk, proofs_ok)
 
     a, b, c, d = (chk.coverage[k] for k in ("partA", "partB", "partC", "partD"))
